@@ -30,7 +30,7 @@ CLAIMS = {
   tech="contract-based frame/effect obligations (writes-global, reads-immutable-global, no-shared-generator) discharged by dsvc's syntactic pass over the typed call graph"),
  "C01": dict(
   text="Proof (partial): panic-freedom obligations (nil dereference, index, slice bounds against cap, type assertion, integer division, make length, nil-map write, nil function call, explicit panic) are generated for every such site of every function under contract and discharged under the data-structure invariants wfValue/DictData/NativeFunctionData/customDice* (assumed on field read, re-established at every call, return and loop head). Covered: the whole VM dispatch loop evaluate (every opcode case, closures inlined, 2500+ obligations), roll_func.go, the parser's code-buffer and jump-patching helpers, the (de)serialisation entry points, value constructors/accessors, the operators. The bytecode/VM interface (operand types per opcode, stack height, open dice/detail/block state) is an explicit assumption discharged on the compiler side by C08.",
-  note="Functions not yet under contract are listed in the evidence under functions_outside (zero-annotation sweep: 330 open obligations, mostly missing preconditions on built-in methods). ValueMap (sync/atomic/unsafe) is outside the subset. Goroutine stack exhaustion by deep recursion, allocation volume, third-party totality: not expressible. Host callbacks are assumed to return normally, not to re-enter the running context and not to modify VM registers / operand stack. Termination: only loops with a decreases clause.",
+  note="The zero-annotation sweep over every function without a contract is part of this check as advisory obligations: those that discharged on the unchanged tree (about 1500) are in the ledger and claimed, the rest (mostly missing preconditions) are counted as open in the evidence. Native functions and methods are under contract with the arity / receiver type their registration tables declare (native:* obligations). ValueMap (sync/atomic/unsafe) is outside the subset. Goroutine stack exhaustion by deep recursion, allocation volume, third-party totality: not expressible. Host callbacks are assumed to return normally, not to re-enter the running context and not to modify VM registers / operand stack. Termination: only loops with a decreases clause.",
   ref="DESIGN.md §3 C01"),
  "C02": dict(
   text="Proof (partial): functional contracts of the binary/unary operators on integers, strings and arrays (two's-complement sums, truncated division, divide-by-zero error unless IgnoreDiv0, comparison results 0/1, null-coalescing, array concatenation cap), of getRealIndex/getClampRealIndex, and of the jump-patching helpers (OffsetPopAndSet/OffsetJmpSetX/BreakSet land on the stated target); structural obligations: binOperator[c-typeAdd] is the method named for opcode c and the table is immutable; every opcode a parser action can emit has a VM case; the VM side of the per-opcode stack-effect table (pops/pushes) is asserted for every case.",
@@ -38,11 +38,11 @@ CLAIMS = {
   ref="DESIGN.md §3 C02"),
  "C07": dict(
   text="Proof (partial): the operation counter never wraps (closure contract of numOpCountAdd: mathematical sum or saturation, error set when the limit is exceeded, non-negative counts at every call site); WriteCode either appends the instruction or records codeOverflow, which Parse turns into an error (no silent truncation); block/template nesting guards precede the fixed-size writes; range literals are capped at 512 with overflow-safe length; inner dice loops carry decreases clauses.",
-  note="Known findings (reported, not alarms): the exploding rounds of RollWoD / RollDoubleCross have no variant and are not charged to the budget. Not yet under contract: +100 per sub-VM call as recursion measure, the parse budget (panic(errMaxExprCnt) in generated code), memory volume of string doubling.",
+  note="Known findings (reported, not alarms): the exploding rounds of RollWoD / RollDoubleCross have no variant and are not charged to the budget. Sub-VM calls (FuncInvokeRaw, ComputedExecute) are under contract: the caller's counter ends equal to the sub-VM's; the instruction-overflow flag is sticky and untouched by nested code buffers. Not under contract: the parse budget (panic(errMaxExprCnt) in generated code), memory volume of string doubling.",
   ref="DESIGN.md §3 C07"),
  "C09": dict(
-  text="Proof (partial): UnmarshalJSON returns an error or a well-formed value for every type tag (including unknown tags, unknown native names, null elements); ToJSONRaw errors on nil; VMValueFromJSON returns a non-nil pointer that is well-formed when err == nil.",
-  note="Not covered: the schema equality written==read per tag, cycle detection of dict values (ValueMap.ToJSON starts a fresh visited set; ValueMap is outside the subset), behavioural equivalence of a restored VM. encoding/json is an assumed external (writes through its target; for targets with UnmarshalJSON the method's contract is assumed).",
+  text="Proof (partial): UnmarshalJSON returns an error or a well-formed value for every type tag (including unknown tags, unknown native names, null elements) whose type tag and scalar payload are the document's; ToJSONRaw errors on nil and writes type tag and payload at the paths the decoder reads; the scalar round trip is a verified lemma; VMValueFromJSON returns a non-nil pointer that is well-formed when err == nil.",
+  note="Round trip of scalars: ToJSONRaw and UnmarshalJSON are specified over an assumed JSON document model (what Marshal writes at a tag path is what Unmarshal reads there) and lemmaJSONRoundTripScalar (a two-call Go function in the contracts file, verified) gives decode(encode(v)) == v for ints, floats and strings; functions and computed values agree on expr/name. Not covered: arrays and dicts (hand-assembled bytes; ValueMap is outside the subset — the seeded change in ValueMap.ToJSON is NOT detected), cycle detection, behavioural equivalence of a restored VM.",
   ref="DESIGN.md §3 C09"),
  "C10": dict(
   text="Proof (partial): (*VMValue).UnmarshalJSON ensures err == nil ==> wfValue(v) with the type tag among the ten known ones and no nil array element, for every input and every path (each return is a separate obligation); the decoder may leave *v ill-formed only when it returns an error (exempt clause). Operations on decoded values are covered by the C01 obligations, whose only assumption on values is the same invariant.",
@@ -50,15 +50,15 @@ CLAIMS = {
   ref="DESIGN.md §3 C10"),
  "C03": dict(
   text="Proof (partial) of the compiler half: failure atomicity of the grammar. pigeon restores the text position but not the code buffer when a sequence fails, so for every sequence element of every rule that runs in action mode the obligation `cannot fail after an earlier element of its sequence emitted code` is decided structurally on the grammar table g extracted from roll.peg.go on every run (look-ahead guards `&X X`, `&&(X) X`, guard items threaded into rule bodies and out of nested groups, flag writes voiding guards, parse-error predicates aborting the parse). Structurally failing obligations get a witness search: candidate inputs derived from the grammar are run on the real parser (instrumented by overlay so that the failing element is known) and a witness is an input whose compiled code differs from the code of its matched text; only confirmed witnesses are reported.",
-  note="Assumption A_det: matching is a function of position and flags and is the same in look-ahead and in the real run. 18 obligations are known findings (stale code, with witnesses); 29 structurally failing obligations have no witness and are reported as undecided, not claimed. Not covered: RunAfterParsed's Matched+RestInput string identity (strings are uninterpreted), equality of detail text and variable effects of Matched alone (follows from equal code only).",
+  note="Assumption A_det: matching is a function of position and flags and is the same in look-ahead and in the real run. 18 obligations are known findings (stale code, with witnesses); 29 structurally failing obligations have no witness and are reported as undecided, not claimed. RunAfterParsed is under contract: Matched + RestInput == string(parser input) (byte strings as a function of heap version, start and length), and Parse hands the parser exactly its argument (frame obligation). Not covered: equality of detail text and variable effects of Matched alone (follows from equal code only).",
   ref="DESIGN.md §3 C03", tech="contract-based: rule contract `!ok ==> parser data unchanged` decided per sequence element on the extracted PEG table; witness search replays candidate inputs on the real parser"),
  "C08": dict(
   text="Proof (partial): ghost typing of the compiler. Every grammar rule and every semantic action / ParserData helper is interpreted over an abstract state (operand-stack height as an affine form over repetition counts, open block/template/dice nesting with saved heights, mark.detail, jump-patching stack with the state on each taken branch, counter stack, name stack, break/continue sets, nested code buffers); rule summaries are computed to a fixpoint and applied at references. 463 obligations: operands present at every emitted instruction, count operands of push.array/push.dict/invoke/ld.fs equal to the values pushed, jump sources and targets agree on nesting and height, alternatives agree, repetition bodies are iteration-independent, buffers end balanced. Opcode stack effects are read from specPops/specPushes/specNeedsDetail/specNeedsDice, which Engine A proves against every VM case (evaluate: stack effect, block pops, je.dup). Failure atomicity (shared with C03) covers the valid-prefix-plus-garbage inputs.",
-  note="Known findings (witnesses in known_findings.json): break/continue inside if / template / function body, attribute-, item- and slice-assignment used as expressions, and the stale-code findings of C03. The branch behaviour of jne/je/je.dup/jmp and the abstract effect of the ParserData primitives (OffsetPush, OffsetPopAndSet, OffsetJmpSetX, Counter*, BreakSet, ContinueSet, CodePush/Pop) are stated in the analysis and tied to the code by the Engine A contracts of those functions, not derived from their bodies. Operand *types* (code.Value.(T)) per opcode are asserted on the VM side only.",
+  note="Known findings (witnesses in known_findings.json): attribute-, item- and slice-assignment used as expressions, and the stale-code findings of C03 (break/continue inside if / template / function body was found here and repaired; the typing pass follows unwindToLoop and the loop reset of CodePush mechanically). The branch behaviour of jne/je/je.dup/jmp and the abstract effect of the ParserData primitives (OffsetPush, OffsetPopAndSet, OffsetJmpSetX, Counter*, BreakSet, ContinueSet, CodePush/Pop) are stated in the analysis and tied to the code by the Engine A contracts of those functions, not derived from their bodies. Operand *types* (code.Value.(T)) per opcode are asserted on the VM side only.",
   ref="DESIGN.md §3 C08", tech="contract-based: per-rule typing contracts over the extracted PEG table and the typed AST of the actions, discharged by abstract interpretation to a fixpoint (no solver); VM side by SMT"),
  "C13": dict(
   text="Proof (partial): compile side — every template/literal alternative of `fstring` leaves exactly one value; AddFormatString receives the number of parts pushed since the matching CounterPush (affine counting through the repetition), every hole contributes exactly one value (fstr.block.pop), nesting is balanced (typed:* obligations of rules fstring, strPart*, fstringStmt*). VM side — ld.fs pops n and pushes one string; fstr.block.pop leaves saved+1 values, pushing the block's last value or the empty string when the block left none; block.pop inside a template pushes the empty string (ghost assertions in evaluate).",
-  note="Not covered: the text of escapes and literal segments (strings are uninterpreted: no statement about `\\n`, quotes or 0x1E), the order of concatenation inside ld.fs beyond the stack effect. Known finding: break/continue inside a template block (C08).",
+  note="Not covered: the text of escapes and literal segments (strings are uninterpreted: no statement about `\\n`, quotes or 0x1E), the order of concatenation inside ld.fs beyond the stack effect.",
   ref="DESIGN.md §3 C13", tech="contract-based: grammar typing contracts (abstract interpretation) + VM ghost assertions discharged by SMT"),
  "C16": dict(
   text="Proof: flag dominance on the grammar table — every action that emits an instruction of a dice family (coc.*, wod.*, dc.*, fate) runs only where the family's Enable flag has been tested true on every path from the start rule (facts established by `&{return c.data.Config.F}` predicates, voided by flag writes and FlagsPop, met over all non-look-ahead reference sites, greatest fixpoint); block.push / loops / function definitions / return only where DisableStmts was tested false. Frame: no function reachable from Parse/Run assigns a Context's Config; the parser's Config is a struct copy.",
@@ -70,7 +70,7 @@ CLAIMS = {
   ref="DESIGN.md §3 C18", tech="contract-based: grammar obligations (reachability, typing) + VM ghost assertions discharged by SMT"),
  "C14": dict(
   text="Proof (partial): (a) every dice instruction of the VM (dice, fate, coc bonus/penalty, wod, dc) pushes the total returned by its Roll* call and records in the open detail span that same total as a fresh int value and the detail text returned by the same call (ghost capture at the call, assertions at the end of the instruction); with C04 (the total equals the sum of the dice the text lists) this is `each annotation's value is the total of the dice it lists`. (b) frame obligations: GetDetailText (host rewrite hooks aside) writes only its cache, reaches no host code other than the three detail hooks, draws no random number and returns the cache it stored, so requesting the text is idempotent and does not touch result, variables or generator.",
-  note="Not covered: the rendered text itself (makeDetailStr: grouping of nested spans, reverse splice into the source) — strings are uninterpreted and bytes.Buffer is not modelled, so neither `the text is the source with rolls replaced` nor the slice bounds inside makeDetailStr are obligations here; arithmetic meaning of the text after deleting annotations.",
+  note="Detail spans never alias the operand stack (raw-alias obligation). Not covered: the rendered text itself (makeDetailStr: grouping of nested spans, reverse splice into the source) — strings are uninterpreted and bytes.Buffer is not modelled, so neither `the text is the source with rolls replaced` nor the slice bounds inside makeDetailStr are obligations here (the seeded change of the span grouping is NOT detected); arithmetic meaning of the text after deleting annotations.",
   ref="DESIGN.md §3 C14"),
  "C17": dict(
   text="Proof (partial): custom dice — PrepareCustomDice returns false exactly when no match is pending and leaves pendingCustomDice nil, CommitCustomDice clears it; tryMatchCustomDice returns a non-nil match iff ok (regex group slicing in bounds under the assumed FindStringSubmatchIndex contract); the VM case dice.custom calls the handler exactly once per evaluation of the instruction with the running context and a fresh copy of the groups, pushes a value equal to the handler's result and stores a fresh clone (never the handler's object) in the detail span. Store hook — StoreName calls the hook at most once and only when useHook; a hook that returns (nil, false) leaves the stored name and value exactly the caller's, an overwrite replaces the value, a hook that claims the store suppresses it.",
